@@ -653,3 +653,71 @@ Proof.
     try apply N.leb_le in A; try apply N.leb_gt in A;
     try apply N.leb_le in B; try apply N.leb_gt in B; cbv beta iota; intros H; lia.
 Qed.
+(* ------------------------------------------- the top-K contract fixes the score list *)
+Lemma sorted_Z_perm_eq : forall l1 l2 : list Z,
+  StronglySorted Z.ge l1 -> StronglySorted Z.ge l2 -> Permutation l1 l2 -> l1 = l2.
+Proof.
+  induction l1 as [|a r IH]; intros l2 S1 S2 P.
+  - apply Permutation_nil in P. subst. reflexivity.
+  - destruct l2 as [|b s].
+    { apply Permutation_sym, Permutation_nil in P. discriminate. }
+    inversion S1 as [|? ? S1r F1]; subst. inversion S2 as [|? ? S2s F2]; subst.
+    rewrite Forall_forall in F1, F2.
+    assert (Hab : (a <= b)%Z).
+    { assert (Hin : In a (b :: s)) by (eapply Permutation_in; [exact P|left; reflexivity]).
+      destruct Hin as [->|Hin]; [lia|]. specialize (F2 _ Hin). lia. }
+    assert (Hba : (b <= a)%Z).
+    { assert (Hin : In b (a :: r)) by (eapply Permutation_in; [apply Permutation_sym; exact P|left; reflexivity]).
+      destruct Hin as [->|Hin]; [lia|]. specialize (F1 _ Hin). lia. }
+    assert (a = b) by lia. subst b. f_equal. apply IH; try assumption.
+    eapply Permutation_cons_inv. exact P.
+Qed.
+
+Lemma sorted_map_key l : SortedDesc l -> StronglySorted Z.ge (map key l).
+Proof.
+  unfold SortedDesc. induction 1 as [|a r S IH F]; cbn [map]; constructor.
+  - exact IH.
+  - rewrite Forall_forall in *. intros z Hz. apply in_map_iff in Hz.
+    destruct Hz as (e & <- & He). specialize (F e He). unfold ge_key in F. lia.
+Qed.
+
+Lemma sorted_app_intro a b : SortedDesc a -> SortedDesc b -> Dominates a b -> SortedDesc (a ++ b).
+Proof.
+  unfold SortedDesc. intros Sa Sb D. induction Sa as [|x r S IH F]; cbn [app].
+  - exact Sb.
+  - constructor.
+    + apply IH. intros p q Hp Hq. apply D; [right; exact Hp|exact Hq].
+    + apply Forall_app. split; [exact F|]. rewrite Forall_forall. intros q Hq.
+      apply D; [left; reflexivity|exact Hq].
+Qed.
+
+(* any output meeting the top-K contract carries exactly the scores of sort-then-truncate *)
+Lemma topk_spec_scores k l out : TopKSpec k l out ->
+  map key out = firstn (length out) (map key (sort_desc l)).
+Proof.
+  intros (_ & So & rest & Hp & Hd).
+  assert (S2 : SortedDesc (out ++ sort_desc rest)).
+  { apply sorted_app_intro; [exact So|apply sort_desc_sorted|].
+    intros a b Ha Hb. apply Hd; [exact Ha|].
+    eapply Permutation_in; [apply Permutation_sym, sort_desc_perm|exact Hb]. }
+  assert (P2 : Permutation (sort_desc l) (out ++ sort_desc rest)).
+  { eapply perm_trans. { apply Permutation_sym, sort_desc_perm. }
+    eapply perm_trans. { exact Hp. } apply Permutation_app_head. apply sort_desc_perm. }
+  assert (E : map key (sort_desc l) = map key (out ++ sort_desc rest)).
+  { apply sorted_Z_perm_eq.
+    - apply sorted_map_key, sort_desc_sorted.
+    - apply sorted_map_key, S2.
+    - apply Permutation_map. exact P2. }
+  rewrite E, map_app.
+  rewrite <- (map_length key out) at 1.
+  rewrite firstn_app, Nat.sub_diag, firstn_all. cbn [firstn]. rewrite app_nil_r. reflexivity.
+Qed.
+
+Lemma topk_fixed_scores w k l : (1 <= w)%nat ->
+  exists out, topk true w k l = Ok out /\
+    map key out = firstn (N.to_nat (N.min k (N.of_nat (length l)))) (map key (sort_desc l)).
+Proof.
+  intros Hw. destruct (topk_fixed_spec w k l Hw) as (out & E & Sp).
+  exists out. split; [exact E|]. rewrite (topk_spec_scores k l out Sp).
+  destruct Sp as (L & _). rewrite <- L, Nat2N.id. reflexivity.
+Qed.
